@@ -15,6 +15,7 @@ import (
 	"os"
 	"runtime"
 	"runtime/pprof"
+	"strings"
 
 	"golang.org/x/crypto/sha3"
 
@@ -198,12 +199,14 @@ func (e *env) msgOf(n int) []byte { return append([]byte{}, e.msgData[:n]...) }
 // run is reported as capped); everything observable through the public API is still compared.
 var stateHook = true
 
+var missingField = map[string]bool{}
+
 func sameStrobe(t *merlin.Transcript, r *refstrobe.Transcript) bool {
 	if !stateHook || t == nil || merlin.VerifStrobe(t) == nil {
 		return true
 	}
 	st, pos, pb, cf, _, _ := strobe.VerifFields(merlin.VerifStrobe(t))
-	return *st == r.S.St && pos == r.S.Pos && pb == r.S.PosBegin && cf == r.S.CurFlags
+	return *st == r.S.St && (missingField["pos"] || pos == r.S.Pos) && (missingField["posBegin"] || pb == r.S.PosBegin) && (missingField["curFlags"] || cf == r.S.CurFlags)
 }
 
 func strobeSnapshot(t *merlin.Transcript) (out [204]byte) {
@@ -232,9 +235,14 @@ func run(c *mc.Ctx) {
 		}
 	}
 	genericStream = mc.Bytes(c.Seed, "c12-entropy", 0, 256)
-	if m := strobe.VerifMissing() + merlin.VerifMissing(); m != "" {
-		stateHook = false
-		c.Cap("the STROBE state can no longer be read from this tree (" + m + "): Merlin state comparisons skipped, public-API comparisons unaffected")
+	if m := strings.Trim(strobe.VerifMissing()+","+merlin.VerifMissing(), ","); m != "" {
+		for _, f := range strings.Split(m, ",") {
+			missingField[f] = true
+		}
+		if missingField["st"] || missingField["Transcript.s"] {
+			stateHook = false
+		}
+		c.Cap("STROBE state components that can no longer be read from this tree: " + m + " (their comparison is skipped; public-API comparisons unaffected)")
 	}
 	e := &env{c: c, srcs: sources(c.Thorough)}
 	e.ctxData = mc.Bytes(c.Seed, "c12-context", 0, 512)
